@@ -173,7 +173,8 @@ def _law(case, j, ctx):
         ctx.violation("law-antisymmetry", f"delays(-DM) != -delays(DM): {dneg[:4]} vs {(-d)[:4]}", one)
     if isinstance(ref, str) and ref in ("max", "min", "ch1"):
         c0 = {"max": int(np.argmax(f)), "min": int(np.argmin(f)), "ch1": 0}[ref]
-        if d[c0] != 0 and abs(v[c0]) < 0.49:
+        # only where single precision can resolve one sample at that channel (the two f^-2 terms are rounded separately)
+        if d[c0] != 0 and abs(v[c0]) + (tol[c0] if np.ndim(tol) else tol) < 0.49:
             ctx.violation(f"law-nonzero-at-reference[{ref}]", f"delay at the reference channel {c0} is {d[c0]}", one)
     # monotone in frequency where the exact values are separated by more than the error bound
     order = np.argsort(f)
